@@ -426,3 +426,112 @@ Proof.
   unfold call_ok in *. destruct (own_tree_sum inputs s0), (own_tree_mean inputs s0).
   split; [apply H1|apply H2]; exact Hne.
 Qed.
+
+(* ---- Wave 4: the remaining helpers, and propagation of non-finite coordinates ---- *)
+Lemma tree_weight_is_scale p w :
+  tree_weight (vlift p) (Some w) = vlift (rscale w p) /\ rscale w p =v= vscale w p.
+Proof. split; [apply tree_weight_lift|apply rscale_vscale]. Qed.
+
+Lemma tree_add_is_vadd a b : tree_add (vlift a) (vlift b) = vlift (vadd a b).
+Proof. apply tree_add_lift. Qed.
+
+Lemma tree_zeros_like_lift x : tree_zeros_like (vlift x) = vlift (vzero (length x)).
+Proof. unfold tree_zeros_like, vlift, vzero. rewrite map_map. induction x as [|a x IH]; cbn; [reflexivity|]. rewrite IH. reflexivity. Qed.
+
+(* coordinate i of a tree *)
+Definition coord (i : nat) (t : list NanQ.t) : NanQ.t := nth i t (Some 0).
+
+Lemma coord_tree_add i a b : (i < length a)%nat -> (i < length b)%nat ->
+  coord i (tree_add a b) = NanQ.add (coord i a) (coord i b).
+Proof. intros Ha Hb. unfold coord, tree_add. apply map2_nth; assumption. Qed.
+
+Lemma coord_tree_weight i p w : (i < length p)%nat -> coord i (tree_weight p w) = NanQ.mul (coord i p) w.
+Proof.
+  intros H. unfold coord, tree_weight.
+  rewrite (nth_indep _ (Some 0) (NanQ.mul (Some 0) w)) by (rewrite map_length; exact H).
+  apply (map_nth (fun l => NanQ.mul l w)).
+Qed.
+
+Lemma tree_add_length a b n : length a = n -> length b = n -> length (tree_add a b) = n.
+Proof. unfold tree_add. apply map2_length_eq. Qed.
+Lemma tree_weight_length p w : length (tree_weight p w) = length p.
+Proof. apply map_length. Qed.
+
+Lemma add_None_absorbs a b : a = None \/ b = None -> NanQ.add a b = None.
+Proof. intros [-> | ->]; [reflexivity|destruct a; reflexivity]. Qed.
+
+(* tree_sum: once the accumulator is None at i it stays None, and a None input makes it None *)
+Lemma sum_fold_nonfinite n i (Hi : (i < n)%nat) trees : forall acc,
+  length acc = n -> Forall (fun t => length t = n) trees ->
+  (coord i acc = None \/ Exists (fun t => coord i t = None) trees) ->
+  exists v, fold_left tree_sum_step trees (Some acc) = Some v /\ length v = n /\ coord i v = None.
+Proof.
+  induction trees as [|t trees IH]; intros acc La Hl H; cbn [fold_left].
+  - destruct H as [H|H]; [eauto|inversion H].
+  - pose proof (Forall_inv Hl) as Lt. pose proof (Forall_inv_tail Hl) as Hl'. cbn beta in Lt.
+    unfold tree_sum_step at 2. unfold tree_add_eq.
+    apply IH; [apply tree_add_length; assumption|exact Hl'|].
+    destruct H as [H|H].
+    + left. rewrite coord_tree_add by lia. apply add_None_absorbs. left; exact H.
+    + inversion H as [? ? H0|? ? H0]; subst.
+      * left. rewrite coord_tree_add by lia. apply add_None_absorbs. right; exact H0.
+      * right. exact H0.
+Qed.
+
+Lemma sum_nonfinite_propagates n i trees : (i < n)%nat -> Forall (fun t => length t = n) trees ->
+  Exists (fun t => coord i t = None) trees ->
+  exists v, tree_sum trees = Some v /\ length v = n /\ coord i v = None.
+Proof.
+  intros Hi Hl H. destruct trees as [|t trees]; [inversion H|].
+  unfold tree_sum, tree_sum_init. cbn [fold_left]. unfold tree_sum_step at 2, copy_tree.
+  apply (sum_fold_nonfinite n i Hi); [exact (Forall_inv Hl)|exact (Forall_inv_tail Hl)|].
+  inversion H; subst; [left|right]; assumption.
+Qed.
+
+Lemma mul_None_absorbs a w : a = None -> NanQ.mul a w = None.
+Proof. intros ->. reflexivity. Qed.
+
+Lemma mean_fold_nonfinite n i (Hi : (i < n)%nat) cl : forall acc sw,
+  length acc = n -> Forall (fun c => length (fst c) = n) cl ->
+  (coord i acc = None \/ Exists (fun c => coord i (fst c) = None) cl) ->
+  exists v sw', fold_left tree_mean_step cl (Some acc, sw) = (Some v, sw') /\ length v = n /\ coord i v = None.
+Proof.
+  induction cl as [|c cl IH]; intros acc sw La Hl H; cbn [fold_left].
+  - destruct H as [H|H]; [eauto|inversion H].
+  - pose proof (Forall_inv Hl) as Lc. pose proof (Forall_inv_tail Hl) as Hl'. cbn beta in Lc.
+    destruct c as [p w]. cbn [fst] in *. unfold tree_mean_step at 2. unfold tree_add_eq.
+    apply IH; [apply tree_add_length; [assumption|rewrite tree_weight_length; assumption]|exact Hl'|].
+    destruct H as [H|H].
+    + left. rewrite coord_tree_add by (rewrite ?tree_weight_length; lia). apply add_None_absorbs. left; exact H.
+    + inversion H as [? ? H0|? ? H0]; subst.
+      * left. rewrite coord_tree_add by (rewrite ?tree_weight_length; lia). apply add_None_absorbs. right.
+        rewrite coord_tree_weight by lia. apply mul_None_absorbs. exact H0.
+      * right. exact H0.
+Qed.
+
+(* a non-finite coordinate of any client (whatever its weight) makes that coordinate of the mean non-finite *)
+Lemma mean_nonfinite_propagates n i cl : (i < n)%nat -> Forall (fun c => length (fst c) = n) cl ->
+  Exists (fun c => coord i (fst c) = None) cl ->
+  exists v, tree_mean cl = Some v /\ length v = n /\ coord i v = None.
+Proof.
+  intros Hi Hl H. destruct cl as [|[p w] cl]; [inversion H|].
+  unfold tree_mean, tree_mean_init. cbn [fold_left]. unfold tree_mean_step at 2.
+  pose proof (Forall_inv Hl) as Lp. cbn [fst] in Lp.
+  destruct (mean_fold_nonfinite n i Hi cl (tree_weight p w) (NanQ.add (NanQ.of_Q (0 # 1)) w)) as [v [sw' [E [Lv Cv]]]].
+  - rewrite tree_weight_length. exact Lp.
+  - exact (Forall_inv_tail Hl).
+  - inversion H as [? ? H0|? ? H0]; subst; [left|right; exact H0].
+    cbn [fst] in H0. rewrite coord_tree_weight by lia. apply mul_None_absorbs. exact H0.
+  - rewrite E. cbn [option_map]. eexists; split; [reflexivity|].
+    unfold tree_inverse_weight_eq, tree_weight_eq. split; [rewrite tree_weight_length; exact Lv|].
+    rewrite coord_tree_weight by lia. apply mul_None_absorbs. exact Cv.
+Qed.
+
+Lemma nonfinite_propagates :
+  (forall n i trees, (i < n)%nat -> Forall (fun t => length t = n) trees ->
+     Exists (fun t => coord i t = None) trees ->
+     exists v, tree_sum trees = Some v /\ length v = n /\ coord i v = None) /\
+  (forall n i cl, (i < n)%nat -> Forall (fun c => length (fst c) = n) cl ->
+     Exists (fun c => coord i (fst c) = None) cl ->
+     exists v, tree_mean cl = Some v /\ length v = n /\ coord i v = None).
+Proof. split; [exact sum_nonfinite_propagates|exact mean_nonfinite_propagates]. Qed.
